@@ -24,13 +24,24 @@ def main():
     ap.add_argument('--tests', action='store_true')
     ap.add_argument('--tier', default='quick')
     ap.add_argument('--verbose', action='store_true')
+    ap.add_argument('--demo', help='demonstration program: must exit 0 before the patch and non-zero after')
     a = ap.parse_args()
     d = tempfile.mkdtemp(prefix='mut-', dir='/tmp')
     os.rmdir(d)
     subprocess.check_call(['git', '-C', '/repo', 'worktree', 'add', '-q', '--detach', d, 'HEAD'])
     ok = True
     try:
+        def demo():
+            dst = os.path.join(d, 'seed_demo.py')
+            shutil.copy(a.demo, dst)
+            r = subprocess.run(['/venv/bin/python', 'seed_demo.py'], cwd=d, stdout=subprocess.PIPE, stderr=subprocess.STDOUT, text=True,
+                               env=dict(os.environ, PYTHONDONTWRITEBYTECODE='1'), timeout=600)
+            return r.returncode
+        if a.demo:
+            print('demo without patch: exit %d' % demo())
         subprocess.check_call(['git', '-C', d, 'apply', '--whitespace=nowarn', os.path.abspath(a.patch)])
+        if a.demo:
+            print('demo with patch: exit %d' % demo())
         if a.tests:
             r = subprocess.run(['/venv/bin/python', '-m', 'pytest', '-q', '-x', '-p', 'no:cacheprovider', '--timeout=900'], cwd=d,
                                stdout=subprocess.PIPE, stderr=subprocess.STDOUT, text=True, env=dict(os.environ, PYTHONDONTWRITEBYTECODE='1'))
